@@ -90,6 +90,32 @@ def detect_renames(funcs: Dict[str, "_Info"], base: Dict[str, dict]) -> Dict[str
     return out
 
 
+def _gen_returns_to_breaks(body: List[ast.stmt]) -> List[ast.stmt]:
+    """A generator whose last statement is a loop (no `else`): a bare `return` directly inside that loop (not inside an
+    inner loop / nested def) ends the generator exactly like `break` does."""
+    if not body or not isinstance(body[-1], (ast.While, ast.For)) or body[-1].orelse:
+        return body
+    loop = body[-1]
+
+    def rec(stmts):
+        for i, st in enumerate(stmts):
+            if isinstance(st, ast.Return) and st.value is None:
+                stmts[i] = ast.copy_location(ast.Break(), st)
+                continue
+            if isinstance(st, (ast.For, ast.While, ast.AsyncFor, ast.FunctionDef, ast.AsyncFunctionDef, ast.ClassDef)):
+                continue
+            for fld in ("body", "orelse", "finalbody"):
+                sub = getattr(st, fld, None)
+                if isinstance(sub, list) and sub and isinstance(sub[0], ast.stmt):
+                    rec(sub)
+            if isinstance(st, ast.Try):
+                for h in st.handlers:
+                    rec(h.body)
+
+    rec(loop.body)
+    return body
+
+
 class _Info:
     def __init__(self, node: ast.FunctionDef, cls: Optional[str]):
         self.node = node
@@ -550,6 +576,7 @@ class Inliner:
             for s_ in pre:
                 ast.copy_location(s_, call)
             body = [ren.visit(s) for s in body]
+            body = _gen_returns_to_breaks(body)
             body = _convert_returns(body, lambda v, at: [])
 
             def conv(stmts):
@@ -1103,25 +1130,33 @@ class Inliner:
                 st = lst[i]
                 i += 1
                 v = getattr(st, "value", None) if isinstance(st, (ast.Assign, ast.AnnAssign, ast.Return)) else None
-                if not (isinstance(v, ast.ListComp) and len(v.generators) == 1 and not v.generators[0].is_async):
+                if not (isinstance(v, (ast.ListComp, ast.SetComp)) and 1 <= len(v.generators) <= 3 and not any(g_.is_async for g_ in v.generators)):
                     continue
-                gen = v.generators[0]
-                calls = [c for part in [v.elt] + list(gen.ifs) for c in ast.walk(part) if isinstance(c, ast.Call)]
+                calls = [c for part in [v.elt] + [i_ for g_ in v.generators for i_ in g_.ifs] for c in ast.walk(part) if isinstance(c, ast.Call)]
                 hit = False
                 for c in calls:
                     t = self._target(c, cls)
                     if t is not None and not t[1].is_gen and self._single_expr(t[1]) is None:
                         hit = True
+                # ... or iterates a new generator helper (which can only be expanded at a `for` statement)
+                for g_ in v.generators:
+                    if isinstance(g_.iter, ast.Call):
+                        t = self._target(g_.iter, cls)
+                        if t is not None and t[1].is_gen:
+                            hit = True
                 if not hit:
                     continue
                 self._comp_tmp = getattr(self, "_comp_tmp", 0) + 1
                 tmp = f"_sv_comp{self._comp_tmp}"
-                init = ast.Assign(targets=[ast.Name(id=tmp, ctx=ast.Store())], value=ast.List(elts=[], ctx=ast.Load()), type_comment=None)
-                app = ast.Expr(value=ast.Call(func=ast.Attribute(value=ast.Name(id=tmp, ctx=ast.Load()), attr="append", ctx=ast.Load()), args=[v.elt], keywords=[]))
+                is_set = isinstance(v, ast.SetComp)
+                init = ast.Assign(targets=[ast.Name(id=tmp, ctx=ast.Store())], value=ast.Call(func=ast.Name(id="set", ctx=ast.Load()), args=[], keywords=[]) if is_set else ast.List(elts=[], ctx=ast.Load()), type_comment=None)
+                app = ast.Expr(value=ast.Call(func=ast.Attribute(value=ast.Name(id=tmp, ctx=ast.Load()), attr="add" if is_set else "append", ctx=ast.Load()), args=[v.elt], keywords=[]))
                 body: List[ast.stmt] = [app]
-                for cond in reversed(gen.ifs):
-                    body = [ast.If(test=cond, body=body, orelse=[])]
-                loop = ast.For(target=gen.target, iter=gen.iter, body=body, orelse=[], type_comment=None)
+                for g_ in reversed(v.generators):
+                    for cond in reversed(g_.ifs):
+                        body = [ast.If(test=cond, body=body, orelse=[])]
+                    body = [ast.For(target=g_.target, iter=g_.iter, body=body, orelse=[], type_comment=None)]
+                loop = body[0]
                 st.value = ast.Name(id=tmp, ctx=ast.Load())
                 for x in (init, loop):
                     ast.copy_location(x, st)
